@@ -485,6 +485,19 @@ func envcheckCase(r *rand.Rand, a, b envForm, tags []string) Case {
 		c.Tags = append(c.Tags, "history:warm-up-call")
 	}
 
+	// history: a third of the cases compile ANOTHER expression on the same engine against the
+	// run-time data (other types under the same names, possibly) between the compilation and the
+	// invocation of the first; what the first callable checks must still be ITS compile-time env
+	if _, isTypeEnv := b.x.(*types.Env); !isTypeEnv && r.Intn(3) == 0 {
+		func() {
+			defer func() { recover() }()
+			if other, err := e.Compile(src, b.x); err == nil && r.Intn(2) == 0 {
+				other(b.x)
+			}
+		}()
+		c.Tags = append(c.Tags, "history:second-compile")
+	}
+
 	// invoke
 	envTrace = nil
 	var res *val.Val
